@@ -480,7 +480,7 @@ class Body:
             outs.append(pname)
         u = sorted(set(outs))
         r = u[0] if len(u) == 1 else "phi{" + " | ".join(u) + "}"
-        if "rec" not in r:
+        if "rec" not in r and "…" not in r:
             self._origin_cache[key] = r
         return r
 
@@ -1265,6 +1265,13 @@ class OnlyIf:
             return False
         reach = self.body.reachable(0, "normal", cut_edges=edges)
         return bb not in reach
+
+    def primary_edges(self, lit):
+        """Establishing edges whose source block is itself reachable without the literal being
+        known (the tests that actually decide it, not tests that merely sit behind it)."""
+        edges = self.establishing_edges(lit)
+        reach = self.body.reachable(0, "normal", cut_edges=edges)
+        return {e for e in edges if e[0] in reach}
 
     def guarded(self, site: Site, lit):
         return self.guarded_block(site.bb, lit)
